@@ -321,6 +321,8 @@ private:
         LI["arr"] = (int64_t)CAT->getSize().getZExtValue();
         LI["esz"] = (int64_t)Ctx.getTypeSizeInChars(CAT->getElementType()).getQuantity();
       }
+      if (V->isStaticLocal() && V->getInit())
+        LI["init"] = initValue(Ctx, V->getInit());   // a lookup table kept inside the function that uses it
       LocalInfo[Id] = std::move(LI);
       return Id;
     }
